@@ -129,10 +129,58 @@ def big_joined_read_case():
     return None
 
 
+def decoded_stream_case(seed):
+    """the messages DELIVERED (decoded) are the messages sent, whatever mix of byte orders the senders used and however the
+    stream is cut: streams of reference-encoded calls / signals with numeric arrays, strings, structs in both byte orders"""
+    import random
+    from twisted.internet.testing import StringTransport
+    from txdbus import protocol
+    from .message_harness import ref_message
+    rnd = random.Random(seed * 17 + 3)
+    bodies = [('ai', [[1, -2, 70000]]), ('au', [[0, 2**32 - 1]]), ('aq', [[1, 65535, 258]]), ('an', [[-2, 513]]), ('ax', [[-1, 2**40]]), ('at', [[2**63]]),
+              ('ad', [[1.5, -2.25]]), ('sas', ['x', ['a', 'bc']]), ('a(iq)y', [[[1, 2], [-3, 515]], 7]), ('a{su}', [{'k': 4660}]), ('v', [__import__('contracts.wire_ref', fromlist=['Variant']).Variant('ai', [258, 3])]),
+              ('ab', [[True, False, True]]), ('ay', [[1, 2, 3]]), ('u', [305419896])]
+
+    class R(protocol.BasicDBusProtocol):
+        def __init__(self): self.got = []
+        def methodCallReceived(self, m): self.got.append(m)
+        signalReceived = methodCallReceived
+    from . import wire_ref as W
+    for trial in range(12):
+        sent, stream = [], b''
+        for k in range(rnd.randrange(2, 6)):
+            sig, vals = rnd.choice(bodies)
+            le = rnd.random() < 0.5
+            stream += ref_message(rnd.choice([1, 4]), 0, k + 1, [(1, '/o'), (2, 'org.e.I'), (3, 'M'), (8, sig)], sig, vals, le)
+            sent.append((sig, [W.canon(ct, v) for ct, v in zip(W.split(sig), vals)], le))
+        for cuts in ([], sorted(rnd.sample(range(1, len(stream)), 3)), list(range(1, len(stream)))):
+            r = R()
+            r.transport = StringTransport()
+            r._receivedFDs = []
+            r._authenticated = True
+            prev = 0
+            try:
+                for c in cuts + [len(stream)]:
+                    r.dataReceived(stream[prev:c])
+                    prev = c
+            except Exception as e:
+                return 'a stream of %d reference-encoded messages (byte orders %r) cut at %s raised %s: %s' % (len(sent), [x[2] for x in sent], cuts if len(cuts) < 5 else 'every byte', type(e).__name__, e)
+            got = [m.body for m in r.got]
+            if len(got) != len(sent) or any(not W.same(g, w_[1]) for g, w_ in zip(got, sent)):
+                return 'a stream of messages with the bodies %r (little-endian: %r) was delivered as %r' % ([x[1] for x in sent], [x[2] for x in sent], got)
+    return None
+
+
 def run_bounded(tier, seed):
     import random
     f = big_joined_read_case()
     n = 6
+    if not f:
+        n += 36
+        f = decoded_stream_case(seed)
+        if f:
+            return {'tool': 'decoded streams in mixed byte orders', 'bound': '12 streams x 3 cuttings', 'evaluations': n,
+                    'failures': [{'function': 'txdbus.protocol.BasicDBusProtocol.dataReceived', 'clause': 'split-independence', 'input': {'case': 'decoded stream'}, 'detail': f}]}
     if not f:
         r = Fixtures().replay('dataReceived', 'split-independence', {'seed': seed, 'trials': 20000 if tier == 'thorough' else 400})
         n += 20000 if tier == 'thorough' else 400
@@ -141,7 +189,7 @@ def run_bounded(tier, seed):
     else:
         inp = {'case': 'handshake end joined with binary data'}
     return {'tool': 'split-independence on the real protocol object: the same stream under random cuts delivers the same messages; joined handshake / large reads',
-            'bound': '%d random streams of 1-5 frames (both byte orders, CR/LF bytes in bodies, with and without a handshake in front) under up to 4 random cuts; handshake end joined with 1 / 40 / 700 messages; 17 KB handshake lines' % (20000 if tier == 'thorough' else 400),
+            'bound': '%d random streams of 1-5 frames (both byte orders, CR/LF bytes in bodies, with and without a handshake in front) under up to 4 random cuts; handshake end joined with 1 / 40 / 700 messages; 17 KB handshake lines; 12 streams of reference-encoded messages in mixed byte orders decoded under 3 cuttings' % (20000 if tier == 'thorough' else 400),
             'evaluations': n, 'failures': [] if not f else [{'function': 'txdbus.protocol.BasicDBusProtocol.dataReceived', 'clause': 'split-independence', 'input': inp, 'detail': f}]}
 
 
